@@ -102,8 +102,18 @@ def load_findings():
         return []
 
 
+def tier_of(spec, tier):
+    """Tier parameters; "smoke" (used by the mutation sweeps only, never registered) is a quarter of the quick tier."""
+    if tier != "smoke":
+        return spec["tiers"][tier]
+    t = dict(spec["tiers"]["quick"])
+    if "checks" in t:
+        t["checks"] = max(1, t["checks"] // 4)
+    return t
+
+
 def run_shards(binary, spec, pid, tier, seed, scratch, replay=None, part_index=0):
-    t = spec["tiers"][tier]
+    t = tier_of(spec, tier)
     shards = 1 if replay else t.get("shards", 16)
     outdir = os.path.join(scratch, "out")
     os.makedirs(outdir, exist_ok=True)
@@ -111,7 +121,7 @@ def run_shards(binary, spec, pid, tier, seed, scratch, replay=None, part_index=0
     prop_no = int(re.sub(r"\D", "", pid) or 0)
     for sh in range(shards):
         e = env_base()
-        e.update({"VERIF_OUT": outdir, "VERIF_SHARD": str(sh + 100 * part_index), "VERIF_SHARD_INDEX": str(sh), "VERIF_SHARDS": str(shards), "VERIF_TIER": tier,
+        e.update({"VERIF_OUT": outdir, "VERIF_SHARD": str(sh + 100 * part_index), "VERIF_SHARD_INDEX": str(sh), "VERIF_SHARDS": str(shards), "VERIF_TIER": "quick" if tier == "smoke" else tier,
                   "VERIF_SEED": str(seed), "VERIF_KF": os.path.join(VERIF, "known_findings.json"),
                   "VERIF_REPO": repo(), "VERIF_DIR": VERIF, "VERIF_SCRATCH_DIR": scratch, "VERIF_TOOLS_DIR": os.path.join(scratch, "tools"),
                   "GOMAXPROCS": str(t.get("gomaxprocs", 2)), "GOGC": str(t.get("gogc", 400)), "GOMEMLIMIT": t.get("gomemlimit", "1500MiB"), "VERIF_N": str(t.get("n", 0))})
@@ -312,7 +322,7 @@ def cmd_check(pid, tier, replay=None):
             procs, outdir, deadline = run_shards(binary, ps, pid, tier, seed, scratch, replay, part_index=pi)
             started.append((pi, procs, deadline))
             if ps.get("rapid", True) and not replay:
-                want += ps["tiers"][tier].get("checks", 0) * ps["tiers"][tier].get("shards", 16)
+                want += tier_of(ps, tier).get("checks", 0) * tier_of(ps, tier).get("shards", 16)
         for pi, procs, deadline in started:
             for sh, rc in wait_shards(procs, deadline).items():
                 results["%d.%d" % (pi, sh)] = rc
@@ -589,7 +599,7 @@ def main():
     sub = ap.add_subparsers(dest="cmd", required=True)
     c = sub.add_parser("check")
     c.add_argument("id")
-    c.add_argument("--tier", choices=["quick", "thorough"], default=None)
+    c.add_argument("--tier", choices=["quick", "thorough", "smoke"], default=None)
     r = sub.add_parser("replay")
     r.add_argument("id")
     r.add_argument("file")
